@@ -1,6 +1,6 @@
 """C08 — invariance under rigid motions: only the longitude-alias clause (L vs L +- 360 degrees) is decided."""
 from .. import facts, run
-from ..rules import dep, footprint, kernels, pure
+from ..rules import dep, footprint, kernels, shift, pure
 
 
 def main(tier):
@@ -13,9 +13,11 @@ def main(tier):
     footprint.ridge_alias_twins(P, rep)
     footprint.bezier_periodic_start(P, rep)
     kernels.point_kernels(P, rep)
+    rep.attempt(shift.translation_invariance, P, rep)
     rep.assumptions.append("translation / rotation invariance in Cartesian worlds and longitude-offset invariance are statements about real "
                            "arithmetic in every kernel: decided only for the distance kernels of Point (closed forms that are invariant by inspection of "
-                           "the formula); otherwise only the 'L vs L+-360' clause is claimed")
+                           "the formula) and, by a shift-degree abstract interpretation, for the polygon test, the signed polygon distance and the "
+                           "ellipse fraction (translation only); otherwise only the 'L vs L+-360' clause is claimed")
     # the answer does not depend on what was queried before (no cache that outlives a query: a necessary condition for a
     # statement about 'all worlds and all points', which includes a second world in the same process)
     pure.run(P, rep, pure.query_roots(P))
